@@ -81,3 +81,40 @@ def f14_f15_twin_files() -> None:
 
 
 f14_f15_twin_files()
+
+
+def f16_f17_paths() -> None:
+    """F16 (C15.R7): a file 'Foo .1.0.dsdl' was accepted and named ns.Foo (the name was stripped before it was checked).
+    F17 (C15.R8): a relative target that contains its root namespace directory ('types/ns/sub/7.C.1.2.dsdl' with the root
+    'ns' or 'types/ns' - documented usages) was joined onto the root's parent once more and reported as missing."""
+    import os
+    import tempfile
+    from pathlib import Path
+
+    import pydsdl
+
+    with tempfile.TemporaryDirectory() as d:
+        d = os.path.realpath(d)
+        ns = Path(d) / "types" / "ns"
+        (ns / "sub").mkdir(parents=True)
+        (ns / "sub" / "7.C.1.2.dsdl").write_text("uint8 a\n@sealed\n")
+        (ns / "Foo .1.0.dsdl").write_text("uint8 a\n@sealed\n")
+        try:
+            print("F16 read_namespace ->", [str(t) for t in pydsdl.read_namespace(ns, allow_unregulated_fixed_port_id=True)])
+        except Exception as ex:  # noqa
+            print("F16 read_namespace ->", type(ex).__name__)
+        (ns / "Foo .1.0.dsdl").unlink()
+        old = os.getcwd()
+        os.chdir(d)
+        try:
+            for roots in (["ns"], [Path("types/ns")]):
+                try:
+                    r = pydsdl.read_files(["types/ns/sub/7.C.1.2.dsdl"], roots, allow_unregulated_fixed_port_id=True)
+                    print("F17 read_files", roots, "->", [str(t) for t in r[0]])
+                except Exception as ex:  # noqa
+                    print("F17 read_files", roots, "->", type(ex).__name__, str(ex).replace(d, "")[:90])
+        finally:
+            os.chdir(old)
+
+
+f16_f17_paths()
